@@ -307,7 +307,7 @@ def run_alg(case, rec):
     calls = [0]
     given: dict = {}  # id(program) -> value handed out for it
     keep = []
-    multi = case["multi"] and case["alg"] == "gp"
+    multi = case["multi"]  # every algorithm accepts a multi-objective problem
     minimize = case["minimize"]
 
     def f(p):
